@@ -19,6 +19,12 @@ drv_aes: script lines (all byte strings in hex, "-" = empty)
       output:  ct <len> <fnv1a-64 of ct, hex> in <same|changed> arr <same|changed@idx:hex..> rt <ok|len hash>
                darr <same|changed@..> conc ok
 
+  seq | new <id> <opts> <key> ; use <id> <pt> ; ...
+      several cipher objects alive at once in one process (key / IV / mode FAMILIES): `new` creates a cipher and
+      keeps it under <id>, `use` encrypts <pt> with that (possibly older) cipher and decrypts the result.
+      output, one token per op:  n:ok | n:panic-key | u:<ct hex>:<same|rt hex> | u:panic-iv | u:noid
+      (the model is stateless: every `use` is answered from the (key, options) of its own `new`)
+
   <opts> = "-" or comma separated list of  cbc | cfb | iv:<hex>   (applied in order, as NewCipher does)
 
 The block functions are the Lean FIPS-197 AES of Got.Spec.Aes (independent of crypto/aes).
@@ -134,7 +140,45 @@ def runDec (opts : List Opt) (key ct : List UInt8) : String :=
     | .error p => showPanic p
     | .ok (st1, out) => joinSp ["pt", hexOf (out.bytes st1)]
 
+abbrev SeqEnv := List (String × Option (Cipher × Got.Spec.Aes.Key))
+
+def seqOp (env : SeqEnv) (op : String) : SeqEnv × String :=
+  match words op with
+  | ["new", id, o, key] =>
+    match parseOpts o, bytes? key with
+    | some o, some key =>
+      match newCipher key o, Got.Spec.Aes.mkKey key with
+      | .ok c, some k => ((id, some (c, k)) :: env, "n:ok")
+      | _, _ => ((id, none) :: env, "n:panic-key")
+    | _, _ => (env, "bad-op")
+  | ["use", id, pt] =>
+    match bytes? pt, env.lookup id with
+    | some pt, some (some (c, k)) =>
+      let E := Got.Spec.Aes.encryptBlock k
+      let D := Got.Spec.Aes.decryptBlock k
+      let st : Store := [pt]
+      let input : Slice := { id := 0, off := 0, len := pt.length, cap := pt.length }
+      match c.encrypt E st input with
+      | .error _ => (env, "u:panic-iv")
+      | .ok (st1, out) =>
+        match c.decrypt E D st1 out with
+        | .error _ => (env, "u:panic-iv")
+        | .ok (st2, out2) =>
+          let rt := out2.bytes st2
+          (env, s!"u:{hexOf (out.bytes st1)}:{if rt = pt then "same" else hexOf rt}")
+    | some _, _ => (env, "u:noid")
+    | none, _ => (env, "bad-op")
+  | _ => (env, "bad-op")
+
+def runSeq (body : String) : String :=
+  let ops := body.splitOn " ; "
+  let (_, outs) := ops.foldl (fun (acc : SeqEnv × List String) op =>
+    let (env, o) := seqOp acc.1 op
+    (env, o :: acc.2)) ([], [])
+  joinSp outs.reverse
+
 def step (_ : Unit) (line : String) : Unit × String :=
+  if line.startsWith "seq | " then ((), runSeq (line.drop 6).toString) else
   match words line with
   | ["enc", o, key, pre, pt, spare, tail] =>
     match parseOpts o, bytes? key, bytes? pre, bytes? pt, bytes? spare, bytes? tail with
